@@ -36,7 +36,7 @@ def handle (line : String) : String :=
     | "fileops" => handleFileOps args
     | "aesenc" | "aesdec" | "sha256" | "sha1" => handlePrim cmd args
     | "engine" => handleEngine args
-    | "cia-open" | "cia-ops" | "ticket-walk" => handleCia cmd args
+    | "cia-open" | "cia-ops" | "ticket-walk" | "cdn-key" => handleCia cmd args
     | "ncch-open" | "ncch-geom" | "ncch-ops" => handleNcch cmd args
     | "sd-iv" | "sd-key" => handleSd cmd args
     | "cci-parse" | "cdn-select" | "sdtitle-select" => handleCci cmd args
